@@ -24,6 +24,12 @@ const CTXS: &[&str] = &[
     "(apply list (list 'h) • (list (list 'z)))",
     // inside a delayed expression: re-entering it after the promise has a value does not change that value
     "(let ((pr (delay (list 'd •)))) (list (force pr) (force pr)))",
+    // re-entry from inside the same evaluation while the capturing frame is still live: ◦ stands for a guarded
+    // invocation of the stored continuation (at most twice). From a later operand of the same application, deeper
+    // on the stack than the capture, after the slots of the pending operands have been popped and reused ...
+    "(list (list 1 •) ◦)",
+    // ... and from a later iteration of a loop whose tail calls have overwritten the argument slots in place
+    "(let lp ((i 3) (acc '())) (if (= i 0) (if (= j 0) (cons 'first ◦) acc) (lp (- i 1) (cons (if (= i 2) • i) acc))))",
 ];
 
 /// receivers: (text, how k is stored: 0 = not stored, 1 = continuation, 2 = in a list, 3 = in a closure, 4 = in a vector)
@@ -71,6 +77,8 @@ const FRAMES: usize = 4;
 fn body(ctx: &str, recv: &str, store: u8, inloop: bool) -> String {
     let callcc = format!("(call/cc {})", recv);
     let site = if ctx.contains("(pp)") { ctx.to_string() } else { ctx.replace('•', &callcc) };
+    let reenter = format!("(if (and k (< j 2)) (begin (set! j (+ j 1)) (list 100 {})) 'done)", kcall(store, "31"));
+    let site = site.replace('◦', &reenter);
     let tail = if inloop && store != 0 {
         format!(" (if (< m 2) (begin (set! m (+ m 1)) {}) (list 'end r loc (car cell)))", kcall(store, "30"))
     } else {
@@ -86,7 +94,7 @@ fn body(ctx: &str, recv: &str, store: u8, inloop: bool) -> String {
     )
 }
 
-const HEAD: &str = "(define k #f) (define k2 #f) (define n 0) (define m 0) (define log '()) (define (deep d th) (if (= d 0) (th) (+ 1 (deep (- d 1) th)))) (define (deepl d th) (if (= d 0) (th) (cons d (deepl (- d 1) th)))) (define (cp x) (cond ((pair? x) (cons (cp (car x)) (cp (cdr x)))) ((vector? x) (list->vector (cp (vector->list x)))) ((string? x) (string-append x)) (else x)))";
+const HEAD: &str = "(define k #f) (define k2 #f) (define n 0) (define m 0) (define j 0) (define log '()) (define (deep d th) (if (= d 0) (th) (+ 1 (deep (- d 1) th)))) (define (deepl d th) (if (= d 0) (th) (cons d (deepl (- d 1) th)))) (define (cp x) (cond ((pair? x) (cons (cp (car x)) (cp (cdr x)))) ((vector? x) (list->vector (cp (vector->list x)))) ((string? x) (string-append x)) (else x)))";
 
 /// All programs with at most `max_inv` later invocation forms.
 pub fn programs(max_inv: u32) -> Vec<String> {
